@@ -338,6 +338,21 @@ func spell(c valueCtx, vc string, rng *rand.Rand, kw string, usedVars map[string
 		return "/" + strings.TrimLeft(pl, "/"), nil
 	case "at":
 		return "@" + pl, nil
+	case "ctrl":
+		// runes a formatter must write back verbatim (or with an escape the lexer inverts): invisible or
+		// non-printable ones, and control bytes other than \n \t \r
+		specials := []string{"\u00a0", "\u200b", "\ufeff", "\u2028", "\u00ad", "\ue000", "\x1b", "\a", "\x7f", "\x01", "\u0085", "\u202e", "\U000e0001"}
+		a, b := specials[rng.Intn(len(specials))], specials[rng.Intn(len(specials))]
+		switch rng.Intn(5) {
+		case 0:
+			return pl[:mid] + a + pl[mid:], nil // bare: any rune but blank { } " # may stand in a token
+		case 1:
+			return `"` + a + pl + b + `"`, nil
+		case 2:
+			return `"` + pl + a + `"`, nil
+		default:
+			return `"` + pl[:mid] + a + pl[mid:] + b + `"`, nil
+		}
 	case "bad":
 		b, ok := kindBad[c.kind]
 		if !ok {
